@@ -1,3 +1,5 @@
+//go:build !no_c02
+
 package props
 
 import (
